@@ -169,6 +169,44 @@ fn judge_relations<F: Fl>(p: Prod, av: &[f64], bv: &[f64], confs: &[(Kind, f64)]
                 );
             }
         }
+        // ---- scaling up to the edge of the type: the largest power of two for which the sum
+        // of squares (of the observations; of the differences for Paired) stays below MAX/2,
+        // against the same sample 8 binades lower. Everything the documented formula needs is
+        // representable there; an Err is accepted (an implementation may report an overflowing
+        // intermediate), a silently different interval is not.
+        if matches!(p, Prod::Arithmetic | Prod::Paired) {
+            let vals: Vec<f64> = if p == Prod::Paired { a.iter().zip(&b).map(|(x, y)| (*x - *y).f()).collect() } else { all.clone() };
+            let ssq: f64 = vals.iter().map(|x| x * x).sum();
+            let amax = all.iter().fold(0.0f64, |m, x| m.max(x.abs()));
+            let e0 = if ssq > 0.0 && ssq.is_finite() { ((max_f::<F>() / 2.0 / ssq).log2() / 2.0).floor() } else { f64::NAN };
+            if e0.is_finite() && e0.abs() < 1100.0 && amax > 0.0 {
+                let mut e = e0 as i32;
+                for _ in 0..16 {
+                    if amax * 2f64.powi(e) > max_f::<F>() / 4.0 {
+                        e -= 1;
+                    }
+                }
+                let (k1, k0) = (2f64.powi(e), 2f64.powi(e - 8));
+                let mk = |k: f64| -> (Vec<F>, Vec<F>) { (a.iter().map(|x| F::of(x.f() * k)).collect(), b.iter().map(|x| F::of(x.f() * k)).collect()) };
+                let ((a1, b1), (a0, b0)) = (mk(k1), mk(k0));
+                s.calls += 2;
+                match (sh(&call::<F>(p, c, &a1, &b1)), sh(&call::<F>(p, c, &a0, &b0))) {
+                    (Some(r1), Some(r0)) => {
+                        s.evals += 1;
+                        s.outcome(&(p, F::NAME, "edge", kind));
+                        let fin = [r1.1, r1.2, r0.1 * 256.0, r0.2 * 256.0].iter().all(|x| !x.is_nan() && (x.is_infinite() || x.abs() <= max_f::<F>()));
+                        if fin && !(r1.0 == r0.0 && r1.1 == r0.1 * 256.0 && r1.2 == r0.2 * 256.0) {
+                            s.violation(
+                                format!("{p:?}/not-scale-equivariant-at-the-edge/{}", kind.name()),
+                                d(&format!("data x 2^{e} gives [{:?}, {:?}] but 2^8 x the interval of data x 2^{} is [{:?}, {:?}]", r1.1, r1.2, e - 8, r0.1 * 256.0, r0.2 * 256.0)),
+                                case("edge", e as f64),
+                            );
+                        }
+                    }
+                    _ => s.skipped += 1,
+                }
+            }
+        }
         if positive_only {
             continue;
         }
